@@ -28,6 +28,13 @@ bad = 0
 for rid, pid, rc, out in res:
     uf = os.path.join(VERIF, 'refactors', rid, 'undecided.txt')
     und = {ln.split()[0] for ln in open(uf) if ln.strip() and not ln.startswith('#')} if os.path.exists(uf) else set()
+    hf = os.path.join(VERIF, 'refactors', rid, 'upheld.txt')
+    uph = {ln.split()[0] for ln in open(hf) if ln.strip() and not ln.startswith('#')} if os.path.exists(hf) else set()
+    if pid in uph:
+        if rc != 1:
+            bad += 1
+            print('--- %s %s rc=%d (expected 1: listed in upheld.txt)\n%s' % (rid, pid, rc, out))
+        continue
     if pid in und:
         if rc != 2:
             bad += 1
